@@ -177,12 +177,12 @@ CHECKS = {
               "bound from three obligations; the same two theorems with the obligations evaluated per element by the model. Instantiated with the "
               "SZ-1.4 1-D float and double kernels and the 2-D and 3-D float kernels transcribed over Flocq binary32/binary64 (range, median, required "
               "length, mantissa truncation, mixed int/float/double expressions, Lorenzo stencils over the raster-order history). For every input: a code is "
-              "only emitted after the re-check passed (all five kernels), it is never 0 (1-D), and the decoder's expression reproduces the encoder's "
+              "only emitted after the re-check passed (all five kernels), it is never 0 (all five; for 2-D/3-D over the reals through Flocq's correctness theorems, giving an unconditional lock-step theorem for those two kernels), and the decoder's expression reproduces the encoder's "
               "reconstruction bit for bit (1-D: by the symmetry of round-to-nearest-even under negation, proved over Flocq's definitions; 2-D/3-D: the "
               "same term). The pre-repair double kernel (no re-check) and float code-0 edge are kept as refuted statements with witnesses. On every run "
               "the model reproduces the implementation's 1-D, 2-D and 3-D reconstructions bit for bit (bound and interval count read from the stream), "
               "its remaining checks are evaluated, and the bound oracle runs over ranks 1..4, both kernel families, 12 configurations, 4 modes under ASan."),
-        note=TB_COMMON + "Stdlib real-number axioms + classic + functional extensionality through Flocq (Print Assumptions per theorem in the evidence). The 4-D and double multi-dimensional SZ-1.4 kernels and the regression kernels are not transcribed: they are covered by the generic theorems only via the implementation oracle (partial). Truncation-within-bound and code <> 0 for 2-D/3-D are evaluated checks, not theorems.",
+        note=TB_COMMON + "Stdlib real-number axioms + classic + functional extensionality through Flocq (Print Assumptions per theorem in the evidence). The 4-D and double multi-dimensional SZ-1.4 kernels and the regression kernels are not transcribed: they are covered by the generic theorems only via the implementation oracle (partial). Truncation-within-bound is an evaluated check, not a theorem.",
         technique="Coq proof (generic codec induction, Flocq-based kernel instances, vm_compute witnesses) + bit-exact differential + bound oracle"),
     "C08": dict(
         category="proof", design_ref="DESIGN.md §4 C08",
